@@ -95,7 +95,9 @@ func (ex *Exec) eval(st *State, e ast.Expr, k func(*State, Val)) {
 					in := app("select", app("m-dom", x.T), i.T)
 					k(st3, Val{T: ite(in, app("select", app("m-val", x.T), i.T), zeroOf(x.S.Elem)), S: x.S.Elem, GoT: u.Elem()})
 				case *types.Slice, *types.Array:
-					k(st3, Val{T: app("select", app("s-arr", x.T), i.T), S: x.S.Elem, GoT: elemGoType(xt)})
+					ev := Val{T: app("select", app("s-arr", x.T), i.T), S: x.S.Elem, GoT: elemGoType(xt)}
+					ex.assumeWf(st3, ev)
+					k(st3, ev)
 				case *types.Basic:
 					k(st3, Val{T: app("str.to_code", app("str.at", x.T, i.T)), S: SInt, GoT: types.Typ[types.Byte]})
 				case *types.Pointer:
@@ -991,7 +993,9 @@ func (ex *Exec) pureCall(st *State, fc *FuncContract, fn *types.Func, recv *Val,
 			name = fmt.Sprintf("%s_%d", base, i)
 		}
 		ex.declare(fmt.Sprintf("(declare-fun %s (%s) %s)", name, strings.Join(argSorts, " "), rs.Name))
-		out = append(out, Val{T: app(name, argTerms...), S: rs, GoT: rt})
+		rv := Val{T: app(name, argTerms...), S: rs, GoT: rt}
+		ex.assumeWf(st, rv)
+		out = append(out, rv)
 	}
 	if len(fc.Ensures) > 0 {
 		ground := true
